@@ -60,9 +60,9 @@ def run(chk):
         obj = json.load(open(chk.replay))
         lines = list(obj.get("case", []))
     else:
-        n1 = 150 if chk.quick else 2500
-        n2 = 60 if chk.quick else 1200
-        n3 = 25 if chk.quick else 500
+        n1 = 150 if chk.quick else 1800
+        n2 = 60 if chk.quick else 800
+        n3 = 25 if chk.quick else 300
         lines += gen_pset.make_cases(chk.seed * 1000 + 1, n1, start=0, maxdim=2, nobj=3, steps=10, pq=0.25)
         # reductions only (dense in omega_reduce / collapse / pairwise_reduce / lub on redundant sequences)
         lines += gen_pset.make_cases(chk.seed * 1000 + 2, n2, start=n1, maxdim=2, nobj=2, steps=12, pq=0.15, dimops=False,
